@@ -295,8 +295,8 @@ class Interp(object):
         if cls in self.trace_classes:
             st.ev('call', cls, fn.name, depth)
         a = fn.args
-        if a.kwonlyargs or a.posonlyargs:
-            raise Unsupported('kw-only/pos-only parameters in %s' % frame.qual())
+        if a.posonlyargs:
+            raise Unsupported('positional-only parameters in %s' % frame.qual())
         params = [x.arg for x in a.args]
         pos = list(args)
         if recv is not None:
@@ -316,6 +316,16 @@ class Interp(object):
                 st, env[p] = r[0]
             else:
                 return [(st, Raised('TypeError', 'missing argument %s of %s' % (p, frame.qual())))]
+        for kp, kd in zip(a.kwonlyargs, a.kw_defaults):
+            if kp.arg in kw:
+                env[kp.arg] = kw.pop(kp.arg)
+            elif kd is not None:
+                r = self.eval(st, env, kd, frame)
+                if len(r) != 1:
+                    raise Unsupported('forking default value')
+                st, env[kp.arg] = r[0]
+            else:
+                return [(st, Raised('TypeError', 'missing keyword argument %s of %s' % (kp.arg, frame.qual())))]
         extra = pos[len(params):]
         if a.vararg:
             env[a.vararg.arg] = TupleV(extra)
@@ -474,6 +484,27 @@ class Interp(object):
             return [(st, env, ('continue',))]
         if isinstance(s, ast.Try):
             return self.trystmt(st, env, s, frame)
+        if isinstance(s, ast.With):
+            # context managers of the package's environment (locks, files) are opaque: the body runs once
+            cur = [(st, env, None)]
+            for item in s.items:
+                nxt = []
+                for (s1, e1, oc) in cur:
+                    for (s2, v, e2) in self._multi(self.eval(s1, e1, item.context_expr, frame), e1):
+                        if isinstance(v, Raised):
+                            nxt.append((s2, e2, ('raise', v)))
+                        elif item.optional_vars is not None:
+                            nxt.extend(self.assign(s2, e2, item.optional_vars, v, frame))
+                        else:
+                            nxt.append((s2, e2, None))
+                cur = nxt
+            out = []
+            for (s1, e1, oc) in cur:
+                if oc is not None:
+                    out.append((s1, e1, oc))
+                else:
+                    out.extend(self.block(s1, e1, s.body, frame))
+            return out
         if isinstance(s, ast.Delete):
             out = [(st, env, None)]
             for t in s.targets:
@@ -497,10 +528,19 @@ class Interp(object):
         return out
 
     def trystmt(self, st, env, s, frame):
-        if s.finalbody or s.orelse:
-            raise Unsupported('try/finally/else in %s' % frame.qual())
+        if s.finalbody:
+            inner = ast.Try(body=s.body, handlers=s.handlers, orelse=s.orelse, finalbody=[])
+            ast.copy_location(inner, s)
+            out = []
+            for (s1, e1, oc) in (self.trystmt(st, env, inner, frame) if (s.handlers or s.orelse) else self.block(st, env, s.body, frame)):
+                for (s2, e2, oc2) in self.block(s1, e1, s.finalbody, frame):
+                    out.append((s2, e2, oc2 if oc2 is not None else oc))
+            return out
         out = []
         for (s1, e1, oc) in self.block(st, env, s.body, frame):
+            if oc is None and s.orelse:
+                out.extend(self.block(s1, e1, s.orelse, frame))
+                continue
             if oc is not None and oc[0] == 'raise':
                 exc = oc[1]
                 handled = False
